@@ -112,6 +112,15 @@ func ModStmts() []Stmt {
 	// a requirement on a module whose path is the word "module" (the quick path extractor scans lines)
 	add("require", "require (\n\tmodule v1.0.0\n)\n")
 	add("replace", "replace (\n\tmodule => ../x\n)\n")
+	// module paths spelled like punctuation the directive parsers look for (written quoted, printed bare)
+	add("replace", "replace \"=>\" => ../x\n")
+	add("replace", "replace \"=>\" v1.0.0 => ../y // s\n")
+	add("replace", "replace (\n\t\"=>\" => \"=>\" v1.0.0\n)\n")
+	add("require", "require \"=>\" v1.0.0\n")
+	add("exclude", "exclude \"=>\" v1.0.0\n")
+	add("require", "require \"//\" v1.0.0\n")
+	add("require", "require \"=\" v1.0.0 // indirect\n")
+	add("godebug", "godebug \"=\"=x\n")
 	// unknown directives and blocks: lax only
 	addLax("unknown", "frobnicate a b c\n")
 	addLax("unknown", "frobnicate (\n\ta b\n\tc\n)\n")
